@@ -9,6 +9,25 @@ From Coq Require Import List Bool Arith Lia.
 Import ListNotations.
 Require Import Kinds Automaton AutoFacts Delivery.
 
+Lemma ar1 L g q q2 : q2 <= q -> L * q2 + L * (g * q) <= L * ((1 + g) * q).
+Proof. intros H. replace (L * ((1 + g) * q)) with (L * q + L * (g * q)) by ring. pose proof (Nat.mul_le_mono_l _ _ L H). lia. Qed.
+Lemma ar2 L g q u : q <= u -> L * (g * q) <= L * (g * u).
+Proof. intros H. apply Nat.mul_le_mono_l, Nat.mul_le_mono_l, H. Qed.
+Lemma ar3 L g u : L * u + L * (g * u) = L * ((1 + g) * u).
+Proof. ring. Qed.
+Lemma ar4 L q u : q <= u -> L * q <= L * u.
+Proof. apply Nat.mul_le_mono_l. Qed.
+
+Lemma ar5 A u1 : A * (1 + u1) = A + A * u1. Proof. ring. Qed.
+Lemma ar6 L g G n : g <= G -> L * (g * n) <= (G * L) * n.
+Proof. intros H. replace (L * (g * n)) with ((g * L) * n) by ring. apply Nat.mul_le_mono_r, Nat.mul_le_mono_r, H. Qed.
+Lemma ar7 a q q1 : q <= q1 + 1 -> a * q <= a * q1 + a.
+Proof. intros H. pose proof (Nat.mul_le_mono_l _ _ a H). lia. Qed.
+Lemma ar8 T G u : (T + G) * u = T * u + G * u. Proof. ring. Qed.
+
+Lemma kind_eq_dec' (a b : kind) : {a = b} + {a <> b}.
+Proof. decide equality. Qed.
+
 Section Linear.
   Context {Tok MS BS Err : Type}.
   Variable P : params Tok MS BS Err.
@@ -171,5 +190,367 @@ Section Linear.
     destruct B as (toks & E & Cc & _ & Lq). cbn [snd app] in E. subst acc.
     split; [exact Sp|]. cbn [queue set_queue calls]. rewrite Q1 in *. cbn [app length snd] in *.
     pose proof (Nat.mul_le_mono_r _ _ (length toks) HL). split; lia.
+  Qed.
+
+  Lemma sat_bind_w {A B} (r : res A) (f : A -> ctx -> res B) Q1 Q2 (E1 E : ctx -> Prop) F :
+    sat r Q1 E1 F -> (forall c, E1 c -> E c) -> (forall a c, Q1 a c -> sat (f a c) Q2 E F) -> sat (bind r f) Q2 E F.
+  Proof. destruct r; simpl; auto. Qed.
+
+  Lemma sat_and_l {A} (r : res A) Q1 Q2 (E1 E2 : ctx -> Prop) :
+    sat r Q1 E1 False -> sat r Q2 E2 False -> sat r (fun a c => Q1 a c /\ Q2 a c) E1 False.
+  Proof. destruct r; simpl; auto. Qed.
+
+  Fixpoint nguards (tests : list test) : nat :=
+    match tests with
+    | [] => 0
+    | x :: xs => (match t_guard x with Some _ => 1 | None => 0 end) + nguards xs
+    end.
+
+  Lemma exec_frame stop t k ps c : W c ->
+    sat (exec P stop t k ps c) (fun _ c' => W c' /\ U c' = U c /\ queue c' = queue c /\ calls c' = calls c)
+        (fun c' => calls c' = calls c) False.
+  Proof.
+    intros Hw. eapply sat_weaken; [apply (sat_and _ _ _ _ _ _ _ (exec_spec P K key stop t k ps c) (exec_calls stop t k ps c)) | | | tauto].
+    - intros _ c' [[F _] Cc]. split; [exact (fqm_W P sk I c c' F Hw)|]. split; [exact (fqm_U P K key c c' F)|].
+      split; [apply F | exact Cc].
+    - intros c' [_ Cc]. exact Cc.
+  Qed.
+
+  Lemma run_tests_cost stop : forall tests t c, W c ->
+    sat (run_tests P stop tests t c)
+        (fun r c' => (W c' /\ U c' = U c)
+                     /\ calls c' <= calls c + length tests + L * (nguards tests * length (queue c'))
+                     /\ length (queue c) <= length (queue c')
+                     /\ (nguards tests = 0 -> queue c' = queue c))
+        (fun c' => calls c' <= calls c + length tests + L * (nguards tests * length (U c))) False.
+  Proof.
+    induction tests as [|x xs IH]; intros t c Hw; cbn [run_tests].
+    - cbn [sat length nguards]. split; [split; [exact Hw | reflexivity]|]. split; [lia|]. split; [lia | auto].
+    - destruct Hw as (Hq & Hr & Hi).
+      eapply sat_bind with (Q1 := fun r c1 => (fq c c1 /\ I (ms c1) /\ key (snd r) = key t /\ is_eof P (snd r) = is_eof P t)
+                                            /\ calls c1 <= calls c + 1).
+      { eapply sat_weaken; [apply (sat_and _ _ _ _ _ _ _ (match_k_fq P K key I Hkey Heof HI stop (t_kind x) t c Hi)
+                                            (match_k_calls stop (t_kind x) t c)) | auto | | tauto].
+        intros c1 [_ X]. cbn [length]. lia. }
+      intros [b t1] c1 ((F1 & Hi1 & _ & _) & C1). cbn [fst snd].
+      assert (W1 : W c1) by (apply (fq_W P sk I c c1 F1 Hi1); exact (conj Hq (conj Hr Hi))).
+      pose proof (U_fq P K key c c1 F1) as U1.
+      assert (Q1 : queue c1 = queue c) by apply F1.
+      cbn [length nguards].
+      destruct b.
+      + destruct (t_guard x) as [hn|].
+        * eapply sat_bind_w; [apply (lookahead_cost stop hn c1 W1) | |].
+          -- intros c2 C2. cbn beta in *. rewrite U1 in C2. rewrite <- ar3. lia.
+          -- intros bb c2 ((W2 & U2 & _) & C2 & Lq2).
+             pose proof (queue_le_U c2 W2) as QU2. rewrite Q1 in Lq2.
+             destruct bb.
+             ++ eapply sat_bind_w; [apply (exec_frame stop t1 (t_kind x) (t_prods x) c2 W2) | |].
+                ** intros c3 C3. cbn beta in *. rewrite C3, <- U1, <- U2, <- ar3.
+                   pose proof (ar4 L _ _ QU2). lia.
+                ** intros _ c3 (W3 & U3 & Q3 & C3). cbn [sat fst]. rewrite Q3, C3.
+                   split; [split; [exact W3 | congruence]|]. split; [rewrite <- ar3; lia|]. split; [lia | intros X; lia].
+             ++ eapply sat_weaken; [apply (IH t1 c2 W2) | | | auto].
+                ** intros r c' ((W' & U') & C' & Lq' & _). split; [split; [exact W' | congruence]|].
+                   split; [pose proof (ar1 L (nguards xs) _ _ Lq'); lia|]. split; [lia | intros X; lia].
+                ** intros c' C'. rewrite U2, U1 in *. rewrite <- ar3. pose proof (ar4 L _ _ QU2). lia.
+        * eapply sat_bind_w; [apply (exec_frame stop t1 (t_kind x) (t_prods x) c1 W1) | |].
+          -- intros c3 C3. cbn beta in *. rewrite C3. lia.
+          -- intros _ c3 (W3 & U3 & Q3 & C3). cbn [sat fst]. rewrite Q3, C3, Q1.
+             split; [split; [exact W3 | congruence]|]. split; [lia|]. split; [lia | auto].
+      + eapply sat_weaken; [apply (IH t1 c1 W1) | | | auto].
+        * intros r c' ((W' & U') & C' & Lq' & Z'). rewrite Q1 in *. split; [split; [exact W' | congruence]|].
+          split; [destruct (t_guard x); [rewrite <- ar3|]; lia|]. split; [lia|].
+          intros X. apply Z'. destruct (t_guard x); [discriminate X | exact X].
+        * intros c' C'. rewrite U1 in C'. destruct (t_guard x); [rewrite <- ar3|]; lia.
+  Qed.
+
+  (* ---- the quiet invariant ---- *)
+  Variable quiet : nat -> bool.        (* states without guarded tests in which a look-ahead's queue is consumed *)
+  Variable GK : kind.                  (* the kind of every guarded test (#TagLine) *)
+  Variable gk : Tok -> Prop.           (* tokens known to answer GK *)
+  Variable SKK : list kind.            (* the only kinds a skippable token answers to *)
+
+  Hypothesis guards_kind : forall x y, In x (table P) -> In y (s_tests x) -> t_guard y <> None -> t_kind y = GK.
+  Hypothesis G1 : forall m t t' m', I m -> matchf P GK m t = MR true t' m' -> gk t'.
+  Hypothesis G2 : forall m t, I m -> gk t -> is_eof P t = false /\ exists t' m', matchf P GK m t = MR true t' m' /\ gk t'.
+  Hypothesis sk_stable : forall k m t, sk t -> sk (mtok (matchf P k m t)).
+  Hypothesis sk_kinds : forall k m t, sk t -> I m -> ~ In k SKK -> matchf P k m t = MR false t m.
+
+  (* after a guarded test: more tests of the same kind, the last of them unguarded, all into quiet states *)
+  Fixpoint fb (tests : list test) : Prop :=
+    match tests with
+    | [] => False
+    | y :: ys => t_kind y = GK /\ quiet (t_tgt y) = true /\ (t_guard y = None \/ fb ys)
+    end.
+  Hypothesis Hfb : forall x pre y post, In x (table P) -> s_tests x = pre ++ y :: post -> t_guard y <> None ->
+    quiet (t_tgt y) = true /\ fb post.
+  Hypothesis quiet_noguard : forall x, In x (table P) -> quiet (s_id x) = true -> nguards (s_tests x) = 0.
+  Hypothesis quiet_closed : forall x y, In x (table P) -> quiet (s_id x) = true -> In y (s_tests x) -> In (t_kind y) SKK ->
+    quiet (t_tgt y) = true.
+  Hypothesis err_stays : forall x, In x (table P) -> s_err x = s_id x.
+
+  Lemma match_k_true stop k t c :
+    sat (match_k P stop k t c) (fun r _ => fst r = true -> exists m', matchf P k (ms c) t = MR true (snd r) m') (fun _ => True) True.
+  Proof.
+    unfold match_k. destruct (_ && _); cbn [sat fst]; [intros X; discriminate X|]. cbn [ms bump].
+    destruct (matchf P k (ms c) t) as [b t' m'|e t' m']; cbn [sat fst snd].
+    - intros ->. exists m'. reflexivity.
+    - destruct stop; cbn [sat]; [exact Logic.I|].
+      destruct (add_error P e _) as [[] c'| | | |]; cbn [bind sat fst]; auto. intros X; discriminate X.
+  Qed.
+
+  (* A: once the token is known to answer GK, the remaining GK tests send it to a quiet state *)
+  Lemma run_tests_fb stop : forall tests t c, fb tests -> gk t -> W c ->
+    sat (run_tests P stop tests t c) (fun r _ => exists s', fst r = Some s' /\ quiet s' = true) (fun _ => True) False.
+  Proof.
+    induction tests as [|y ys IH]; intros t c Fb Gt Hw; [destruct Fb|].
+    destruct Fb as (Ky & Qy & Fy). destruct Hw as (Hq & Hr & Hi).
+    destruct (G2 (ms c) t Hi Gt) as (Et & t' & m' & M & Gt').
+    cbn [run_tests]. unfold match_k. rewrite Ky, Et, andb_false_r. cbn [ms bump]. rewrite M. cbn [bind fst snd].
+    set (c1 := set_ms m' (bump c)).
+    assert (W1 : W c1).
+    { split; [exact Hq|]. split; [exact Hr|]. pose proof (HI GK (ms c) t Hi) as X. rewrite M in X. exact X. }
+    destruct (t_guard y) as [hn|].
+    - eapply sat_bind_w; [apply (lookahead_cost stop hn c1 W1) | intros; exact Logic.I |].
+      intros b c2 ((W2 & _) & _). destruct b.
+      + eapply sat_bind_w; [apply (exec_frame stop t' GK (t_prods y) c2 W2) | intros; exact Logic.I |].
+        intros _ c3 _. cbn [sat fst]. exists (t_tgt y). auto.
+      + destruct Fy as [X|Fy]; [discriminate X|]. apply (IH t' c2 Fy Gt' W2).
+    - eapply sat_bind_w; [apply (exec_frame stop t' GK (t_prods y) c1 W1) | intros; exact Logic.I |].
+      intros _ c3 _. cbn [sat fst]. exists (t_tgt y). auto.
+  Qed.
+
+  (* B: from an empty queue, either the queue is still empty or the parser moved to a quiet state *)
+  Lemma run_tests_empty stop x : In x (table P) -> forall tests pre t c, s_tests x = pre ++ tests -> W c -> queue c = [] ->
+    sat (run_tests P stop tests t c) (fun r c' => queue c' = [] \/ exists s', fst r = Some s' /\ quiet s' = true) (fun _ => True) False.
+  Proof.
+    intros Hx. induction tests as [|y ys IH]; intros pre t c Ex Hw Qe; cbn [run_tests]; [left; exact Qe|].
+    destruct Hw as (Hq & Hr & Hi).
+    eapply sat_bind_w with (E1 := fun _ => True) (Q1 := fun r c1 => ((fq c c1 /\ I (ms c1) /\ key (snd r) = key t /\ is_eof P (snd r) = is_eof P t))
+                                            /\ (fst r = true -> exists m', matchf P (t_kind y) (ms c) t = MR true (snd r) m')).
+    { eapply sat_weaken; [apply (sat_and _ _ _ _ _ _ _ (match_k_fq P K key I Hkey Heof HI stop (t_kind y) t c Hi)
+                                          (match_k_true stop (t_kind y) t c)) | auto | auto | tauto]. }
+    { auto. }
+    intros [b t1] c1 ((F1 & Hi1 & _ & _) & Mt). cbn [fst snd] in *.
+    assert (W1 : W c1) by (apply (fq_W P sk I c c1 F1 Hi1); exact (conj Hq (conj Hr Hi))).
+    assert (Q1 : queue c1 = []) by (destruct F1 as (A1 & _); congruence).
+    destruct b.
+    - destruct (t_guard y) as [hn|] eqn:Gy.
+      + assert (Ky : t_kind y = GK).
+        { apply (guards_kind x y Hx); [rewrite Ex; apply in_or_app; right; now left | congruence]. }
+        destruct (Hfb x pre y ys Hx Ex ltac:(congruence)) as [Qy Fy].
+        destruct (Mt eq_refl) as (m' & M). rewrite Ky in M. pose proof (G1 _ _ _ _ Hi M) as Gt1.
+        eapply sat_bind_w; [apply (lookahead_cost stop hn c1 W1) | intros; exact Logic.I |].
+        intros bb c2 ((W2 & _) & _). destruct bb.
+        * eapply sat_bind_w; [apply (exec_frame stop t1 (t_kind y) (t_prods y) c2 W2) | intros; exact Logic.I |].
+          intros _ c3 _. cbn [sat fst]. right. exists (t_tgt y). auto.
+        * eapply sat_weaken; [apply (run_tests_fb stop ys t1 c2 Fy Gt1 W2) | | auto | auto].
+          intros r c' H. right. exact H.
+      + eapply sat_bind_w; [apply (exec_frame stop t1 (t_kind y) (t_prods y) c1 W1) | intros; exact Logic.I |].
+        intros _ c3 (_ & _ & Q3 & _). cbn [sat]. left. congruence.
+    - apply (IH (pre ++ [y]) t1 c1); [rewrite <- app_assoc; exact Ex | exact W1 | exact Q1].
+  Qed.
+
+  Lemma match_k_sk stop k t c : sk t -> sat (match_k P stop k t c) (fun r _ => sk (snd r)) (fun _ => True) True.
+  Proof.
+    intros Hs. unfold match_k. destruct (_ && _); cbn [sat snd]; [exact Hs|]. cbn [ms bump].
+    pose proof (sk_stable k (ms c) t Hs) as X.
+    destruct (matchf P k (ms c) t) as [b t' m'|e t' m']; cbn [sat snd mtok] in *; [exact X|].
+    destruct stop; cbn [sat]; [exact Logic.I|].
+    destruct (add_error P e _) as [[] c'| | | |]; cbn [bind sat snd]; auto.
+  Qed.
+
+  (* C: a skippable token fires only tests of the kinds it can answer to *)
+  Lemma run_tests_sk stop : forall tests t c, nguards tests = 0 -> sk t -> W c ->
+    sat (run_tests P stop tests t c)
+        (fun r _ => forall s', fst r = Some s' -> exists y, In y tests /\ t_tgt y = s' /\ In (t_kind y) SKK)
+        (fun _ => True) False.
+  Proof.
+    induction tests as [|y ys IH]; intros t c Ng Hs Hw; cbn [run_tests]; [intros s' X; discriminate X|].
+    cbn [nguards] in Ng. destruct (t_guard y) as [hn|] eqn:Gy; [discriminate Ng|]. cbn in Ng.
+    destruct Hw as (Hq & Hr & Hi).
+    destruct (in_dec kind_eq_dec' (t_kind y) SKK) as [Yin|Nin].
+    - eapply sat_bind_w with (E1 := fun _ => True) (Q1 := fun r c1 => (fq c c1 /\ I (ms c1) /\ key (snd r) = key t /\ is_eof P (snd r) = is_eof P t) /\ sk (snd r)).
+      { eapply sat_weaken; [apply (sat_and _ _ _ _ _ _ _ (match_k_fq P K key I Hkey Heof HI stop (t_kind y) t c Hi)
+                                            (match_k_sk stop (t_kind y) t c Hs)) | auto | auto | tauto]. }
+      { auto. }
+      intros [b t1] c1 ((F1 & Hi1 & _ & _) & Hs1). cbn [fst snd] in *.
+      assert (W1 : W c1) by (apply (fq_W P sk I c c1 F1 Hi1); exact (conj Hq (conj Hr Hi))).
+      destruct b.
+      + eapply sat_bind_w; [apply (exec_frame stop t1 (t_kind y) (t_prods y) c1 W1) | intros; exact Logic.I |].
+        intros _ c3 _. cbn [sat fst]. intros s' X. inversion X; subst. exists y. auto using in_eq.
+      + eapply sat_weaken; [apply (IH t1 c1 Ng Hs1 W1) | | auto | auto].
+        intros r c' H s' X. destruct (H s' X) as (z & Hz & Tz & Kz). exists z. auto using in_cons.
+    - pose proof (sk_kinds (t_kind y) (ms c) t Hs Hi Nin) as M.
+      destruct (match_k_false P stop (t_kind y) t c (sk_not_eof t Hs) M) as (c1 & Mk & F1 & Ms1 & _).
+      rewrite Mk. cbn [bind fst snd].
+      assert (W1 : W c1) by (apply (fq_W P sk I c c1 F1); [rewrite Ms1; exact Hi | exact (conj Hq (conj Hr Hi))]).
+      eapply sat_weaken; [apply (IH t c1 Ng Hs W1) | | auto | auto].
+      intros r c' H s' X. destruct (H s' X) as (z & Hz & Tz & Kz). exists z. auto using in_cons.
+  Qed.
+
+  Lemma find_state_id s x : find_state P s = Some x -> In x (table P) /\ s_id x = s.
+  Proof. unfold find_state. intros H. apply find_some in H as [H1 H2]. apply Nat.eqb_eq in H2. auto. Qed.
+
+  Definition step_bound (x : st) (c : ctx) (n : nat) : nat := calls c + length (s_tests x) + L * (nguards (s_tests x) * n).
+
+  Lemma match_token_cost stop s x t c : find_state P s = Some x -> W c ->
+    (queue c = [] \/ (quiet s = true /\ sk t)) ->
+    sat (match_token P stop s t c)
+        (fun s' c' => (W c' /\ U c' = U c)
+                      /\ calls c' <= step_bound x c (length (queue c'))
+                      /\ length (queue c) <= length (queue c') /\ (nguards (s_tests x) = 0 -> queue c' = queue c)
+                      /\ (queue c' = [] \/ quiet s' = true))
+        (fun c' => calls c' <= step_bound x c (length (U c))) False.
+  Proof.
+    intros Fs Hw Hcase. destruct (find_state_id s x Fs) as [Hx Hid]. unfold match_token, step_bound. rewrite Fs.
+    assert (RT : sat (run_tests P stop (s_tests x) t c)
+              (fun r c1 => ((W c1 /\ U c1 = U c)
+                     /\ calls c1 <= calls c + length (s_tests x) + L * (nguards (s_tests x) * length (queue c1))
+                     /\ length (queue c) <= length (queue c1)
+                     /\ (nguards (s_tests x) = 0 -> queue c1 = queue c))
+                     /\ (match fst r with Some s' => queue c1 = [] \/ quiet s' = true | None => queue c1 = [] \/ quiet s = true end))
+              (fun c1 => calls c1 <= calls c + length (s_tests x) + L * (nguards (s_tests x) * length (U c))) False).
+    { destruct Hcase as [Qe|[Qs Hs]].
+      - eapply sat_weaken; [apply (sat_and _ _ _ _ _ _ _ (run_tests_cost stop (s_tests x) t c Hw)
+                                          (run_tests_empty stop x Hx (s_tests x) [] t c eq_refl Hw Qe)) | | | tauto].
+        + intros r c1 [A [B|(s' & E & Q)]]; (split; [exact A|]).
+          * destruct (fst r); left; exact B.
+          * rewrite E. right. exact Q.
+        + intros c1 [A _]. exact A.
+      - pose proof (quiet_noguard x Hx ltac:(rewrite Hid; exact Qs)) as Ng.
+        eapply sat_weaken; [apply (sat_and _ _ _ _ _ _ _ (run_tests_cost stop (s_tests x) t c Hw)
+                                          (run_tests_sk stop (s_tests x) t c Ng Hs Hw)) | | | tauto].
+        + intros r c1 [A B]. split; [exact A|]. destruct (fst r) as [s'|]; [|right; exact Qs].
+          destruct (B s' eq_refl) as (y & Hy & <- & Ky). right. apply (quiet_closed x y Hx); auto. rewrite Hid. exact Qs.
+        + intros c1 [A _]. exact A. }
+    eapply sat_bind_w; [exact RT | auto |].
+    intros [o t1] c1 (((W1 & U1) & C1 & Lq1 & Z1) & Qz). cbn [fst snd] in *.
+    destruct o as [s'|]; cbn [sat].
+    - repeat split; auto; try apply W1.
+    - pose proof (queue_le_U c1 W1) as QU. rewrite U1 in QU.
+      pose proof (ar2 L (nguards (s_tests x)) _ _ QU) as Ar.
+      set (c2 := emit _ c1).
+      destruct stop; cbn [sat]; [cbn [calls emit c2]; lia|].
+      pose proof (add_error_fq P (mk_unexpected P t1 (s_expected x)) c2) as A1.
+      pose proof (add_error_calls (mk_unexpected P t1 (s_expected x)) c2) as A2.
+      destruct (add_error P (mk_unexpected P t1 (s_expected x)) c2) as [[] c3| | | |]; cbn [bind sat] in *;
+        try (rewrite A2; cbn [calls emit c2]; lia); try contradiction.
+      destruct A1 as [(B1 & B2 & B3 & B4) B5]. cbn [queue rest lineno ms emit c2] in *.
+      assert (W3 : W c3).
+      { destruct W1 as (Hq1 & Hr1 & Hi1). unfold Delivery.W, qwf, rest_ok in *. rewrite B1, B2, B5. auto. }
+      assert (U3 : U c3 = U c1) by (unfold Delivery.U, stream, eofs; rewrite B1, B2, B3; reflexivity).
+      rewrite B1, A2. cbn [calls emit c2]. rewrite (err_stays x Hx), Hid.
+      split; [split; [exact W3 | congruence]|]. split; [exact C1|]. split; [exact Lq1|]. split; [exact Z1 | exact Qz].
+  Qed.
+
+  (* ---- the parse loop ---- *)
+  Hypothesis Hmatch_eof : forall m t t' m', matchf P KEOF m t = MR true t' m' -> is_eof P t = true.
+  Hypothesis builds_once : forall x y, In x (table P) -> In y (s_tests x) -> count_pb (t_prods y) = 1.
+  Hypothesis Htotal : forall x y, In x (table P) -> In y (s_tests x) ->
+    (find_state P (t_tgt y) = None <-> t_kind y = KEOF).
+  Hypothesis Herr_known : forall x, In x (table P) -> find_state P (s_err x) <> None.
+  Variable T G : nat.
+  Hypothesis HT : forall x, In x (table P) -> length (s_tests x) <= T.
+  Hypothesis HG : forall x, In x (table P) -> nguards (s_tests x) <= G.
+
+  Lemma loop_cost stop B : forall fuel s c, W c -> find_state P s <> None -> (queue c <> [] -> quiet s = true) ->
+    length (U c) <= fuel -> calls c + (T + G * L) * length (U c) <= B + (G * L) * length (queue c) ->
+    sat (loop P fuel stop s c) (fun _ c' => calls c' <= B) (fun c' => calls c' <= B) False.
+  Proof.
+    induction fuel as [|f IH]; intros s c Hw Fs Hqs Hf Pot.
+    { pose proof (U_len_pos c). lia. }
+    cbn [loop]. pose proof (read_calls c) as Rc. destruct (read P c) as [t c1] eqn:R. cbn [snd] in Rc.
+    destruct Hw as (Hq & Hr & Hi).
+    destruct (read_spec P K key sk Hmkeof c t c1 R Hq Hr) as (_ & Ms & _ & _ & Hq1 & Hr1 & HU & _ & Hqq & Hq00 & Hre).
+    assert (W1 : W c1) by (split; [exact Hq1 | split; [exact Hr1 | rewrite Ms; exact Hi]]).
+    destruct (find_state P s) as [x|] eqn:Fx; [|congruence].
+    destruct (find_state_id s x Fx) as [Hx Hid].
+    pose proof (HT x Hx) as Tx. pose proof (HG x Hx) as Gx.
+    pose proof (queue_le_U c (conj Hq (conj Hr Hi))) as QU.
+    (* the queue after the read *)
+    assert (Ql : length (queue c) <= length (queue c1) + 1).
+    { destruct (queue c) as [|q qs] eqn:Qc; [simpl; lia|]. destruct (Hqq q qs eq_refl) as [_ ->]. simpl; lia. }
+    assert (Hcase : queue c1 = [] \/ (quiet s = true /\ sk t)).
+    { destruct (queue c1) as [|q1 qs1] eqn:Q1; [left; reflexivity|]. right.
+      destruct (queue c) as [|q qs] eqn:Qc; [specialize (Hq00 eq_refl); discriminate|].
+      destruct (Hqq q qs eq_refl) as [-> Eq]. subst qs. split; [apply Hqs; discriminate|].
+      destruct Hq as [Hq _]. rewrite Qc in Hq. rewrite removelast_cons_ne in Hq by discriminate. now inversion Hq. }
+    (* guarded states are entered with an empty queue *)
+    assert (Gq : nguards (s_tests x) <> 0 -> queue c = [] /\ queue c1 = []).
+    { intros Ng. destruct (queue c) as [|q qs] eqn:Qc; [split; [reflexivity | apply Hq00; reflexivity]|].
+      exfalso. apply Ng. apply (quiet_noguard x Hx). rewrite Hid. apply Hqs. discriminate. }
+    pose proof (match_token_cost stop s x t c1 Fx W1 Hcase) as MC.
+    pose proof (match_token_spec P K key sk I Hkey Heof Hmkeof HI sk_not_eof S1 S2 la_no_eof Hmatch_eof builds_once Htotal Herr_known
+                  stop s t c1 W1 ltac:(congruence)) as MSp.
+    unfold step_bound in MC. rewrite Rc in MC.
+    pose proof (ar6 L (nguards (s_tests x)) G) as A6.
+    rewrite ar8 in Pot.
+    destruct (is_eof P t) eqn:Et.
+    - (* the end of file: the loop ends *)
+      assert (Ul : length (U c) = 1) by (rewrite HU; reflexivity). rewrite Ul in *.
+      pose proof (Nat.mul_le_mono_l _ _ (G * L) QU) as QG.
+      assert (U1l : nguards (s_tests x) <> 0 -> length (U c1) = 1).
+      { intros Ng. destruct (Gq Ng) as [_ Q1]. unfold Delivery.U, stream. rewrite Q1, (Hre eq_refl). cbn [app upto]. destruct (is_eof P (eofs P c1)); reflexivity. }
+      eapply sat_bind_w; [apply (sat_and_l _ _ _ _ _ MC MSp) | |].
+      + intros c' Cc. cbn beta in Cc. destruct (Nat.eq_dec (nguards (s_tests x)) 0) as [Z|Nz].
+        * rewrite Z in Cc. cbn in Cc. lia.
+        * rewrite (U1l Nz) in Cc. destruct (Gq Nz) as [Q0 _]. rewrite Q0 in Pot. cbn [length] in Pot.
+          specialize (A6 1 Gx). lia.
+      + intros s' c2 [((W2 & U2) & Cc & _ & Z2 & _) _]. cbn [sat].
+        destruct (Nat.eq_dec (nguards (s_tests x)) 0) as [Z|Nz].
+        * rewrite Z in Cc. cbn in Cc. lia.
+        * pose proof (queue_le_U c2 W2) as QU2. rewrite U2, (U1l Nz) in QU2.
+          destruct (Gq Nz) as [Q0 _]. rewrite Q0 in Pot. cbn [length] in Pot.
+          specialize (A6 (length (queue c2)) Gx). pose proof (Nat.mul_le_mono_l _ _ (G * L) QU2). lia.
+    - assert (Ul : length (U c) = 1 + length (U c1)) by (rewrite HU; reflexivity). rewrite Ul in *.
+      rewrite !ar5 in Pot.
+      eapply sat_bind_w; [apply (sat_and_l _ _ _ _ _ MC MSp) | |].
+      + intros c' Cc. cbn beta in Cc. destruct (Nat.eq_dec (nguards (s_tests x)) 0) as [Z|Nz].
+        * rewrite Z in Cc. cbn in Cc. pose proof (Nat.mul_le_mono_l _ _ (G * L) QU). rewrite ar5 in H. lia.
+        * destruct (Gq Nz) as [Q0 _]. rewrite Q0 in Pot. cbn [length] in Pot. specialize (A6 (length (U c1)) Gx). lia.
+      + intros s' c2 [((W2 & U2) & Cc & _ & Z2 & Qz) (_ & _ & _ & Fs')].
+        apply (IH s' c2 W2 (Fs' eq_refl)).
+        * intros Ne. destruct Qz as [X|X]; [contradiction | exact X].
+        * rewrite U2. lia.
+        * rewrite U2, ar8. destruct (Nat.eq_dec (nguards (s_tests x)) 0) as [Z|Nz].
+          -- rewrite Z in Cc. cbn in Cc. rewrite (Z2 Z). pose proof (ar7 (G * L) _ _ Ql). lia.
+          -- destruct (Gq Nz) as [Q0 _]. rewrite Q0 in Pot. cbn [length] in Pot. specialize (A6 (length (queue c2)) Gx). lia.
+  Qed.
+
+  (* ---- Parser.parse ---- *)
+  Theorem parse_calls stop toks m b :
+    Forall (fun t => is_eof P t = false) toks -> I m -> find_state P (start_state P) <> None ->
+    sat (parse P stop toks m b)
+        (fun _ c => calls c <= (T + G * L) * (length toks + 1))
+        (fun c => calls c <= (T + G * L) * (length toks + 1)) False.
+  Proof.
+    intros Hne Him Hst. unfold parse.
+    set (B := (T + G * L) * (length toks + 1)).
+    set (c0 := emit (EvS RGherkinDocument) (init_ctx toks m b)).
+    assert (W0 : W c0) by (repeat split; [constructor | intros ? [] | exact Hne | exact Him]).
+    assert (U0 : length (U c0) = length toks + 1).
+    { unfold Delivery.U, stream, eofs, c0. cbn [queue rest lineno emit init_ctx app].
+      rewrite upto_app_noeof by exact Hne. cbn [upto]. rewrite Hmkeof, map_length, app_length. reflexivity. }
+    eapply sat_bind_w with (E1 := fun c1 => calls c1 = 0)
+                          (Q1 := fun _ c1 => W c1 /\ U c1 = U c0 /\ queue c1 = [] /\ calls c1 = 0).
+    { eapply sat_weaken; [apply (sat_and_l _ _ _ _ _ (b_call_calls stop (b_start P RGherkinDocument) c0)
+                                                (b_call_fqm P stop (b_start P RGherkinDocument) c0)) | | auto | auto].
+      intros _ c1 [Cc F]. split; [exact (fqm_W P sk I c0 c1 F W0)|]. split; [exact (fqm_U P K key c0 c1 F)|].
+      split; [destruct F as (A1 & _); rewrite A1; reflexivity | exact Cc]. }
+    { intros c1 C1. cbn beta. rewrite C1. lia. }
+    intros _ c1 (W1 & U1 & Q1 & C1).
+    eapply sat_bind_w with (E1 := fun c2 => calls c2 <= B) (Q1 := fun _ c2 => calls c2 <= B).
+    { apply (loop_cost stop B (S (S (length toks))) (start_state P) c1 W1 Hst).
+      - intros X. rewrite Q1 in X. congruence.
+      - rewrite U1, U0. lia.
+      - rewrite U1, U0, Q1, C1. cbn [length]. unfold B. lia. }
+    { auto. }
+    intros _ c2 C2.
+    eapply sat_bind_w with (E1 := fun c3 => calls c3 <= B) (Q1 := fun _ c3 => calls c3 <= B).
+    { eapply sat_weaken; [apply (b_call_calls stop (b_end P RGherkinDocument) (emit (EvE RGherkinDocument) c2)) | | | auto];
+        cbn [calls emit]; intros; lia. }
+    { auto. }
+    intros _ c3 C3. destruct (errs c3); cbn [sat]; exact C3.
   Qed.
 End Linear.
